@@ -61,12 +61,17 @@ SentMsgs(stim) == LET sc == stim.script IN
 FinalCode(stim) == IF stim.script.end.ok THEN 0 ELSE stim.script.end.code
 ReqMsgsSeen(stim) == stim.req.msgs
 
-(* ---- message size limits configured on the generated client / server (C06 at call level; identity encoding only) *)
+(* ---- message size limits configured on the generated client / server (C06 at call level; identity encoding, or compressed runs that stay far below the limit) *)
 FirstOver(msgs, lim) == IF lim < 0 THEN 0 ELSE SelectInSeq(msgs, LAMBDA m : Len(m) > lim)
-ReqCut(stim) == LET a == FirstOver(stim.req.msgs, stim.server.max_dec) b == FirstOver(stim.req.msgs, stim.client.max_enc) IN
-                IF a = 0 THEN b ELSE IF b = 0 THEN a ELSE Min2(a, b)
-RespCut(stim) == LET sent == SentMsgs(stim) a == FirstOver(sent, stim.server.max_enc) b == FirstOver(sent, stim.client.max_dec) IN
+ReqCut0(stim) == LET a == FirstOver(stim.req.msgs, stim.server.max_dec) b == FirstOver(stim.req.msgs, stim.client.max_enc) IN
                  IF a = 0 THEN b ELSE IF b = 0 THEN a ELSE Min2(a, b)
+RespCut0(stim) == LET sent == SentMsgs(stim) a == FirstOver(sent, stim.server.max_enc) b == FirstOver(sent, stim.client.max_dec) IN
+                  IF a = 0 THEN b ELSE IF b = 0 THEN a ELSE Min2(a, b)
+\* stim.wire_small (optional): compression is negotiated in both directions and every message is a run of one byte, so its
+\* on-the-wire payload is far below every configured limit whatever its uncompressed length: no limit is hit
+WireSmall(stim) == "wire_small" \in DOMAIN stim /\ stim.wire_small
+ReqCut(stim) == IF WireSmall(stim) THEN 0 ELSE ReqCut0(stim)
+RespCut(stim) == IF WireSmall(stim) THEN 0 ELSE RespCut0(stim)
 LimitHit(stim) == ReqCut(stim) # 0 \/ RespCut(stim) # 0
 \* the call ends with OUT_OF_RANGE; every message before the offending one is still delivered, in order
 LimitClauses(stim, cli, srvMsgs, srvSeen) ==
